@@ -883,26 +883,23 @@ func recalcDepth(peers *pslice.PSlice, radius uint8, filter peerFilterFunc) uint
 		shallowestEmpty, noEmptyBins = peers.ShallowestEmpty()
 	)
 
+	// count the reachable peers of every bin: a bin that holds only
+	// filtered (unreachable) peers is unsaturated, not invisible
 	shallowestUnsaturated := uint8(0)
-	binCount := 0
+	var (
+		reachable [boson.MaxBins]int
+		deepest   = uint8(0)
+	)
 	_ = peers.EachBinRev(func(addr boson.Address, bin uint8) (bool, bool, error) {
-		if filter(addr) {
-			return false, false, nil
+		if !filter(addr) {
+			reachable[bin]++
+			deepest = bin
 		}
-		if bin == shallowestUnsaturated {
-			binCount++
-			return false, false, nil
-		}
-		if bin > shallowestUnsaturated && binCount < quickSaturationPeers {
-			// this means we have less than quickSaturationPeers in the previous bin
-			// therefore we can return assuming that bin is the unsaturated one.
-			return true, false, nil
-		}
-		shallowestUnsaturated = bin
-		binCount = 1
-
 		return false, false, nil
 	})
+	for shallowestUnsaturated < deepest && reachable[shallowestUnsaturated] >= quickSaturationPeers {
+		shallowestUnsaturated++
+	}
 
 	// if there are some empty bins and the shallowestEmpty is
 	// smaller than the shallowestUnsaturated then set shallowest
